@@ -75,7 +75,8 @@ def tlc(module, cfg, tag, workers=None, env=None, simulate=None, timeout=3000, h
     """Run TLC on spec/<module>.tla with spec/<cfg>.  `sink(line)` receives emitted lines
     (strings printed by PrintT whose text starts with one of collect_prefixes)."""
     workers = workers or NCPU
-    meta = os.path.join(OUT, '_tlc', '%s-%d-%d' % (tag, os.getpid(), int(time.time() * 1000) % 100000000))
+    import uuid
+    meta = os.path.join(OUT, '_tlc', '%s-%d-%s' % (tag, os.getpid(), uuid.uuid4().hex[:12]))
     os.makedirs(meta, exist_ok=True)
     cmd = ['timeout', str(timeout), 'java', '-XX:+UseParallelGC', '-Xss512m', '-Xmx' + heap,
            '-cp', '/opt/veriftools/tla/tla2tools.jar:/opt/veriftools/tla/CommunityModules-deps.jar',
@@ -579,6 +580,8 @@ def graph_flow(v, module, cfg, exe, tag, depth=3, budget=20000, walks=50, walkle
 
     res = run_scripts(exe, gen(), v.pid, name=tag)
     v.exec_problems(res, exe)
+    if res.executed < g.nedges and not res.problems:
+        die('only %d events executed for %d model edges: the emitted graph is not connected the way the walker expects' % (res.executed, g.nedges))
     v.cov['traces_validated_against_impl'] += res.nscripts
     v.cov['evaluations'] += res.checked
     nt = 0
